@@ -79,6 +79,8 @@ func NewMuxer(ctx context.Context, w io.Writer, opts ...func(*Muxer)) *Muxer {
 		tablesRetransmitPeriod: 40,
 
 		pm: newProgramMap(),
+		// automatically assigned elementary PIDs start here
+		nextPID: startPID,
 		pmt: PMTData{
 			ElementaryStreams: []*PMTElementaryStream{},
 			ProgramNumber:     programNumberStart,
